@@ -29,6 +29,37 @@ def programOf (fs : List (APath × FileContent)) : Option (List ProgFile) :=
     | .idl _, none => none
     | _, acc => acc) (some [])
 
+/-- the order in which the files of a program are finished: the files a file imports (first visit, textual order,
+    found by the search order of `findFile`) before the file itself. `(visited, finished)`. -/
+def finishOrder (cfg : Cfg) (fs : FS) : Nat → APath → APath → List APath × List APath → List APath × List APath
+  | 0, _, _, acc => acc
+  | fuel + 1, file, spelled, (visited, done) =>
+    match fs.get file with
+    | some (.idl text) =>
+      match parseText text with
+      | none => (visited, done)
+      | some f =>
+        let (visited, done) := f.loads.foldl (fun (acc : List APath × List APath) l =>
+          if !l.isImport then acc else
+          match findFile cfg fs spelled (filepathText l.lit) with
+          | some (c, p) => if acc.1.contains p then acc else finishOrder cfg fs fuel p c.path (acc.1 ++ [p], acc.2)
+          | none => acc) (visited, done)
+        (visited, done ++ [file])
+    | _ => (visited, done)
+
+/-- the program reachable from `root`, its files in finish order; `none` if some file is outside the grammar -/
+def programInOrder (cfg : Cfg) (fs : List (APath × FileContent)) (root : APath) : Option (List ProgFile) :=
+  let r := normPath root
+  let order := (finishOrder cfg { files := fs } (fs.length + 2) r root ([r], [])).2
+  order.foldr (fun p acc =>
+    match (({ files := fs } : FS).get p), acc with
+    | some (FileContent.idl text), some l =>
+      match parseText text with
+      | some f => some ({ file := showPath p, contents := f.contents } :: l)
+      | none => none
+    | some (FileContent.idl _), none => none
+    | _, acc => acc) (some [])
+
 /-- sites (file, position) of external type definitions, with their keys -/
 def extSites (fs : List (APath × FileContent)) : List (String × String × Pos) :=
   fs.flatMap (fun (p, c) => match c with
@@ -57,7 +88,8 @@ def spec (req : Json) : Except String Json := do
   let builtins ← bs.toList.mapM decodeDef
   let impl ← req.getObjVal? "impl"
   let kind ← impl.getObjValAs? String "kind"
-  match programOf fs with
+  let root ← req.getObjValAs? String "root"
+  match (programOf fs).bind (fun _ => programInOrder cfg fs (parsePath root).2) with
   | none => pure (Json.mkObj [("holds", kind == "diags"), ("note", "syntax"), ("rules", strsJ ["syntax"])])
   | some prog =>
     let pre := builtins ++ extRegistry fs
@@ -69,7 +101,7 @@ def spec (req : Json) : Except String Json := do
       pure (Json.mkObj [("holds", ok), ("note", "duplicate declaration"), ("rules", strsJ ["duplicate"]),
         ("duplicates", Json.arr (dups.map (fun (f, p) => Json.mkObj [("file", f), ("p", posJ p)])).toArray)])
     else
-      let v := violations cfg.keys cfg.defaultDeriving pre prog
+      let v := violationsOrdered cfg.keys cfg.defaultDeriving pre prog
       let idiags ← (if kind == "diags" then do
           let a ← impl.getObjValAs? (Array Json) "diags"
           a.toList.mapM decodeImplDiag
